@@ -776,12 +776,10 @@ impl File {
             mode,
             &src.name
         );
-        assert_ne!(
-            self.id,
-            src.id,
-            "{} cannot depend on itself",
-            dep.as_ref().display()
-        );
+        if self.id == src.id {
+            // A target that names itself as a dependency is the shortest cycle.
+            return Err(RedoErrorKind::CyclicDependency.into());
+        }
         ptx.write(
             "insert or replace into Deps (target, mode, source, delete_me) values (?,?,?,?)",
             params!(self.id, mode, src.id, false),
